@@ -101,6 +101,11 @@ CHECKS = {
          'For 6 project shapes (1/2/3 roots x project name given or guessed) x 3 option variants (default, source member order, readthedocs theme + sidebar depth 3 + source links), `python -m pydoctor` is run in separate processes with SOURCE_DATE_EPOCH fixed: reference (seed 0, sorted listing), hash seeds 1..7 (thorough 1..63), 6 (thorough 27) permutations of what pathlib.Path.iterdir / os.scandir / os.listdir return (a sitecustomize on PYTHONPATH - an environment seam, no source change), and histories of the output directory (second run into the same directory, runs with another seed and listing order into the directory left by the previous run, three in a row). The projects contain what is sensitive: chained assignments (tied sort keys under source order), names that differ only in case (members and module files Shapes.py/shapes.py), set and frozenset constants and defaults, diamond inheritance, several subclasses/implementers, a re-export. Every output tree (files, symlink targets, names) must hash to the single state of its project/options: 18 states, 288 (thorough ~1 700) transitions.',
          'Trusted: the interposed listing functions cover every way pydoctor lists directories; seeds beyond the explored range are not covered; the order of roots on the command line is a different invocation.',
          'DESIGN.md section 5, C18'),
+ 'C20': ('exploration',
+         'exhaustive enumeration of option actions x value alphabet x 3 file formats (+ override, accumulation, unknown keys) through the real Options.from_args, and of all short strings over a quoting alphabet x quoting forms through the real config parsers',
+         'Option actions are enumerated from options.get_parser() at run time. For each action x each value of its type alphabet (20 strings with spaces, separators, comment characters, quotes, unicode, percent, empty; every choice + an invalid one; integers incl. invalid; counts; lists of 0-3 items incl. duplicates, commas, brackets) x {pyproject.toml, setup.cfg, pydoctor.ini}, Options.from_args in a scratch cwd must give the same attr.asdict (or the same exit) as the command line; file + command line with different values must let the command line win (append: replace or extend), repeated items accumulate in order in every source; 17 unknown keys (typos, underscore/dash and case variants, odd characters) must warn, not abort, apply nothing and leave the neighbouring known key applied. Quoting: every string of up to 3 (thorough 4) symbols over {a, space, \', ", backslash, #, ;, %, [, ], comma, newline} written single-, double-, triple-quoted (one line and physically multi-line where the format preserves it), with % raw and doubled, and as TOML basic/literal strings must read back as itself (thorough ~250 k reads). Failing strings are delta-minimised.',
+         'Trusted: the serializers for the three formats (quoted INI values are single-line Python literals); configparser/toml behaviour is part of what is tested.',
+         'DESIGN.md section 5, C20'),
 }
 
 
